@@ -290,10 +290,40 @@ class Body:
         return "%s:%s" % (self.file, line if line is not None else self.line)
 
 
+def _apply_renames(raw, ren):
+    """Present renamed / moved functions under their reviewed names (ids of bodies, closures, parents and callee paths)."""
+    if not ren:
+        return
+    import json as _json
+    olds = sorted(ren, key=len, reverse=True)
+
+    def fix(sv):
+        for o in olds:
+            if sv == o or sv.startswith(o + "::{closure#"):
+                return ren[o] + sv[len(o):]
+        return sv
+
+    def walk(x):
+        if isinstance(x, dict):
+            for k2, v in x.items():
+                if isinstance(v, str):
+                    if k2 in ("id", "parent", "path", "resolved", "closure", "uneval"):
+                        x[k2] = fix(v)
+                else:
+                    walk(v)
+        elif isinstance(x, list):
+            for v in x:
+                walk(v)
+    walk(raw["bodies"])
+    walk(raw.get("impls", []))
+
+
 class Crate:
-    def __init__(self, raw):
+    def __init__(self, raw, renames=None):
         self.raw = raw
         self.name = raw["crate"]
+        self.renamed = dict(renames or {})
+        _apply_renames(raw, self.renamed)
         self.bodies = {}
         for b in raw["bodies"]:
             self.bodies[b["id"]] = Body(b, self)
@@ -458,7 +488,12 @@ class Facts:
         if fname not in self._crates:
             p = os.path.join(self.dir, fname)
             with open(p) as fh:
-                self._crates[fname] = Crate(json.load(fh))
+                raw = json.load(fh)
+            ren = {}
+            if fname == "simplesl.rlib.lib.json":
+                from .owners import rename_map
+                ren = rename_map(raw["bodies"])
+            self._crates[fname] = Crate(raw, ren)
         return self._crates[fname]
 
     @property
